@@ -68,8 +68,13 @@ def khash(obj) -> int:
     return int.from_bytes(hashlib.blake2b(s.encode("utf-8"), digest_size=8).digest(), "big")
 
 
+_WORKER_BLOCKS = []  # blocks this worker process has executed so far (for history-dependent violations)
+
+
 def _run_block(args):
     pid, tier, bidx, block = args
+    prior = list(_WORKER_BLOCKS)
+    _WORKER_BLOCKS.append(block)
     out = {
         "bidx": bidx,
         "n": 0,
@@ -107,7 +112,7 @@ def _run_block(args):
                 out["viol_count"][sig] += 1
                 lst = out["viol"].setdefault(sig, [])
                 if len(lst) < MAX_VIOL_PER_SIG_PER_BLOCK:
-                    lst.append({"case": case, "detail": detail, "history": {"block": block, "index": cidx, "tier": tier}})
+                    lst.append({"case": case, "detail": detail, "history": {"block": block, "index": cidx, "tier": tier, "prior_blocks": prior}})
             if out["sample"] is None:
                 out["sample"] = {"case": case, "outcome": r["outcome"]}
     except Exception:
@@ -184,15 +189,29 @@ def replay(pid, path, sig_only=False):
     if not sigs and rec.get("history") and os.environ.get("VERIF_NO_HISTORY") != "1":
         # not reproducible on its own: replay the cases that preceded it in its block, in this fresh process
         h = rec["history"]
-        blk = h["block"]
-        blk = tuple(blk) if isinstance(blk, list) else blk
-        for i, case in enumerate(prop.expand(blk, h["tier"])):
-            r = prop.check_one(case)
-            if i >= h["index"]:
-                break
+        tup = lambda b: tuple(b) if isinstance(b, list) else b  # noqa: E731
+
+        def run_block_prefix():
+            for i, case in enumerate(prop.expand(tup(h["block"]), h["tier"])):
+                rr = prop.check_one(case)
+                if i >= h["index"]:
+                    return rr
+            return {"viol": []}
+
+        r = run_block_prefix()
         sigs = [s for s, _ in r.get("viol", ())]
+        nprior = 0
+        if not sigs and h.get("prior_blocks"):
+            # state may come from blocks the same worker process executed earlier
+            for pb in h["prior_blocks"]:
+                for case in prop.expand(tup(pb), h["tier"]):
+                    prop.check_one(case)
+                    nprior += 1
+            r = run_block_prefix()
+            sigs = [s for s, _ in r.get("viol", ())]
         if sigs:
-            hist_note = f" (only after the {h['index']} preceding conversions of its block in the same process: state is carried between conversions)"
+            hist_note = (f" (only after the {h['index']} preceding cases of its block" + (f" and {nprior} cases of earlier blocks" if nprior else "")
+                         + " in the same process: state is carried between conversions)")
     if sig_only:
         for s in sigs:
             print(s)
